@@ -363,12 +363,12 @@ func cmdCheck(args []string) int {
 		Coverage: map[string]interface{}{
 			"explanation": spec.Explanation + " NOT decided by this check: " + spec.NotDecided,
 			"obligations": obligations, "discharged": discharged,
-			"samples":       samples,
-			"rule":          strings.Join(ruleTexts, " || "),
-			"checker_cmd":   "/verif/bin/luaverif check " + id + " --tier " + tier,
-			"trusted_base":  []string{"Go type checker (go/types)", "golang.org/x/tools v0.29.0 go/packages, go/ssa, dominators, VTA+CHA call graph as an over-approximation of calls", "frozen tables compiled into the checker (/verif/checker/tables.go), each entry confirmed by reading"},
-			"configurations": configsRun,
-			"rules":         ruleDetails,
+			"samples":                 samples,
+			"rule":                    strings.Join(ruleTexts, " || "),
+			"checker_cmd":             "/verif/bin/luaverif check " + id + " --tier " + tier,
+			"trusted_base":            []string{"Go type checker (go/types)", "golang.org/x/tools v0.29.0 go/packages, go/ssa, dominators, VTA+CHA call graph as an over-approximation of calls", "frozen tables compiled into the checker (/verif/checker/tables.go), each entry confirmed by reading"},
+			"configurations":          configsRun,
+			"rules":                   ruleDetails,
 			"known_findings_reported": len(printedKnown),
 			"unlisted_violations":     len(unlisted),
 			"broken":                  broken,
